@@ -95,6 +95,12 @@ def tamper(kind, base, other, p, q):
         if ch == b[i]:
             ch = 'B' if ch != 'B' else 'C'
         return b[:i] + ch + b[i + 1:]
+    if kind == 'highbit' and b:
+        i = p % len(b)
+        if q % 3 == 0 and '?' in b:      # aim at the key region right after a separator
+            seps = [j for j, c in enumerate(b) if c in '?&' and j + 1 < len(b)]
+            i = seps[p % len(seps)] + 1 if seps else i
+        return clean(b[:i] + chr((ord(b[i]) | 0x80) & 0xff) + b[i + 1:])
     if kind == 'truncate' and b:
         return b[:max(0, len(b) - 1 - p % min(len(b), 12))] or 'x'
     if kind == 'truncate-head' and b:
@@ -113,7 +119,8 @@ def tamper(kind, base, other, p, q):
     if kind == 'nonascii':
         return clean('é' + b[:5] + 'ÿ?a=b' + chr(160 + p % 90))
     if kind == 'badb64':
-        return ['a?b', '!!!?x=y', '=?=', '?', 'a?b=c', '*?a=*', 'AAA?a=eA==', '====?', 'a' * (1 + p % 7) + '?' + (b.split('?', 1)[1] if '?' in b else 'k=v')][p % 9]
+        return ['a?b', '!!!?x=y', '=?=', '?', 'a?b=c', '*?a=*', 'AAA?a=eA==', '====?', 'a' * (1 + p % 7) + '?' + (b.split('?', 1)[1] if '?' in b else 'k=v'),
+                'abc?\xe9=1', 'abc?k\xff=eA==&a=b', '\xe9?\xe9=\xe9', 'abc?%ff=1', 'abc?a=1&=2&&'][p % 14]
     if kind == 'nosep':
         return [b.replace('?', ''), b.replace('=', ''), b.replace('&', ''), b.replace('?', '&')][p % 4] or 'x'
     if kind == 'quote-toggle':
@@ -248,7 +255,7 @@ def same_json(a, b):
         return a == b
 
 
-TAMPERS = ['flip', 'truncate', 'truncate-head', 'extend', 'swap', 'resign', 'random', 'nonascii', 'badb64', 'nosep', 'quote-toggle', 'case']
+TAMPERS = ['flip', 'highbit', 'truncate', 'truncate-head', 'extend', 'swap', 'resign', 'random', 'nonascii', 'badb64', 'nosep', 'quote-toggle', 'case']
 
 
 def machine():
